@@ -1,5 +1,6 @@
 (** * C12 — every resting price is on the tick grid; rejected creations leave no trace *)
-From Bourse Require Import Model.Types Model.Book Model.Obs Spec.RefBook Spec.Monitors Proofs.Grid Proofs.Refine Proofs.Volumes Proofs.LevelsAccount Proofs.RestGrid.
+From Bourse Require Import Model.Types Model.Book Model.Obs Spec.RefBook Spec.Monitors Proofs.Grid Proofs.Refine Proofs.Volumes Proofs.LevelsAccount Proofs.RestGrid Proofs.EnvGrid.
+From Bourse Require Import Model.Rng Model.Env.
 
 (** An order can be created iff its limit price is a multiple of the tick size. *)
 Theorem c12_create_iff : forall s sd v tr p,
@@ -18,6 +19,25 @@ Theorem c12_rejected_no_trace : forall s sd v tr p,
   create_order s sd v tr (Some p) = (s, PriceError p (b_tick s)) /\
   create_and_place_order s sd v tr (Some p) = Ok (s, PriceError p (b_tick s)).
 Proof. intros; split; [apply create_err_unchanged | apply create_and_place_err_unchanged]; assumption. Qed.
+
+(** The same through the multi-asset market and the environments: a submission to asset [a] is
+    accepted iff its limit price is a multiple of *that asset's* tick size (market orders always
+    are); a rejected one returns the error and the same environment - no id consumed, nothing
+    queued, no book, cached level-2 data or recorded history touched. *)
+Theorem c12_env_submission_accepted_iff : forall e a sd v tr p b,
+  nth_error (en_market e) a = Some b ->
+  ((exists e' id, menv_place e a sd v tr (Some p) = Ok (e', Created id)) <-> p mod b_tick b = 0).
+Proof. exact menv_place_accepted_iff. Qed.
+
+Theorem c12_env_rejected_no_trace : forall e a sd v tr p b,
+  nth_error (en_market e) a = Some b -> p mod b_tick b <> 0 ->
+  menv_place e a sd v tr (Some p) = Ok (e, PriceError p (b_tick b)).
+Proof. exact menv_place_rejected. Qed.
+
+Theorem c12_env_market_always : forall e a sd v tr b,
+  nth_error (en_market e) a = Some b ->
+  exists e', menv_place e a sd v tr None = Ok (e', Created (length (b_orders b))).
+Proof. exact menv_place_market_always. Qed.
 
 (** The grid invariant is preserved by every operation of the public API,
     with *arbitrary* creation and modification prices. *)
@@ -98,3 +118,6 @@ Print Assumptions c12_grid_reachable.
 Print Assumptions c12_levels_account.
 Print Assumptions c12_levels_account_every_reachable_state.
 Print Assumptions c12_resting_on_grid.
+Print Assumptions c12_env_submission_accepted_iff.
+Print Assumptions c12_env_rejected_no_trace.
+Print Assumptions c12_env_market_always.
